@@ -712,14 +712,17 @@ def key_suffix(rnd, keys, n, tspan=4):
 CMP_KEYS = ("op", "k", "e", "v", "t", "p", "d", "rk", "rv", "out", "take", "a", "b")
 
 
-def norm_event(ln, seg=False):
+def norm_event(ln, seg=False, idmap=None):
     d = json.loads(ln)
     o = {k: d[k] for k in CMP_KEYS if k in d}
+    if seg and d.get("op") == "ins" and idmap is not None:
+        idmap[d["id"]] = (d["a"], d["b"], d["e"])
     if "res" in d:
         if d.get("op") in ("fil", "filby", "after", "before"):
             o["res_is_sentinel"] = d["res"] == -1
         elif seg and isinstance(d["res"], list):
-            o["res"] = len(d["res"])        # fresh ids differ; the bag of yielded ranges is compared through the reference
+            # value ids are fresh per instance: compare the bag of (range, expiration) of what was yielded
+            o["res"] = sorted(idmap.get(i, ("?", i)) for i in d["res"]) if idmap is not None else len(d["res"])
         else:
             o["res"] = d["res"]
     return o
@@ -739,8 +742,9 @@ def twin_compare(ctx, res, seg=False):
         clr = max((j for j, ln in enumerate(a) if '"op":"clear"' in ln), default=None)
         if clr is None:
             raise ToolError("twin: no clear in the first segment")
-        ea = [norm_event(x, seg) for x in a[clr + 1:]]
-        eb = [norm_event(x, seg) for x in b[1:]]
+        ma, mb = {}, {}
+        ea = [norm_event(x, seg, ma) for x in a[clr + 1:]]
+        eb = [norm_event(x, seg, mb) for x in b[1:]]
         if ea != eb:
             j = next((j for j in range(min(len(ea), len(eb))) if ea[j] != eb[j]), min(len(ea), len(eb)))
             x = {"tag": "TWIN", "l": starts[i] + clr + 2 + j, "seg": starts[i] + 1,
